@@ -12,11 +12,13 @@ def _pairs(h):
 
 
 def derivative_contract(env, factory, const=None, exempt=(), history=True, equality_paths=True, setup_model=None,
-                        pre=None, skip_wrt=(), frame=True):
+                        pre=None, skip_wrt=(), frame=True, sibling=None):
     """C01: J == d compute / d x entrywise for every declared analytic sub-Jacobian, d of/d wrt == 0 for every
     undeclared pair, on every explored path.  C03: outputs and Jacobian of compute(X'); partials(X'); compute(X);
     partials(X) on one live instance and storage equal those of a fresh instance at X; compute from havoc'd outputs
     does not depend on them; inputs are not written."""
+    if getattr(env, "only_isolation", False):
+        return isolation_contract(env, factory, sibling, const=const, setup_model=setup_model, pre=pre)
     hB = env.comp("fresh", factory, setup_model)
     if pre:
         pre(env, hB)
@@ -98,8 +100,24 @@ def derivative_contract(env, factory, const=None, exempt=(), history=True, equal
             ok = (r.dtype.kind in 'iu' and c.dtype.kind in 'iu' and len(r) == len(c) and (len(r) == 0 or (
                 r.min() >= 0 and c.min() >= 0 and r.max() < shape[0] and c.max() < shape[1])))
             env.holds("C01", "D-index rows/cols in range d%s/d%s" % (of, wrt), ok)
-    if not history or all_approx:
+    if not history:
         return hB
+    ana = not all_approx
+    ana_keys = [k for k in declared if not declared[k]['method']]
+
+    def _tag(path):
+        if env.sym and path:
+            return " @path(" + ";".join("%s=%s" % (_short(c), "T" if b else "F") for c, b in path) + ")"
+        return ""
+
+    def _fresh_on_path():
+        hC = env.comp("fresh2", factory, setup_model)
+        if pre:
+            pre(env, hC)
+        outsC = hC.compute(ins)
+        jacC = hC.partials(ins) if ana else None
+        return outsC, jacC
+
     # ---- history: live instance A visits X' first
     hA = env.comp("live", factory, setup_model)
     if pre:
@@ -111,36 +129,112 @@ def derivative_contract(env, factory, const=None, exempt=(), history=True, equal
         # there is what the evaluation at X starts from
         store = hA.out_store()
         hA.compute(insP, outs=store)
-        j = hA.partials(insP)
+        j = hA.partials(insP) if ana else None
         o = hA.compute(ins, outs=store)
-        j = hA.partials(ins, prev=j)
-        first = {k: np.array(j.dense(k)) for k in declared if not declared[k]['method']}
-        # linearising again at the same point without re-running the model, then re-running the model at the same point
-        j = hA.partials(ins, prev=j)
+        first = {}
+        if ana:
+            j = hA.partials(ins, prev=j)
+            first = {k: np.array(j.dense(k)) for k in ana_keys}
+            # linearising again at the same point without re-running the model, then re-running the model at the same point
+            j = hA.partials(ins, prev=j)
         o2 = hA.compute(ins, outs=store)
         return o, j, first, o2
 
     for path, (outsA, jacA, jacA_first, outsA2) in env.explore(run_live):
         # compare with a fresh instance on the same path
-        hC = env.comp("fresh2", factory, setup_model)
-        if pre:
-            pre(env, hC)
-        outsC = hC.compute(ins)
-        jacC = hC.partials(ins)
-        tag = ""
-        if env.sym and path:
-            tag = " @path(" + ";".join("%s=%s" % (_short(c), "T" if b else "F") for c, b in path) + ")"
+        outsC, jacC = _fresh_on_path()
+        tag = _tag(path)
         for n in hA.out_names:
             env.eq("C03", "H-out %s after visiting another point%s" % (n, tag), outsA[n], outsC[n])
             env.eq("C03", "H-out %s when the model is run again at the same point%s" % (n, tag), outsA2[n], outsC[n])
-        for k in declared:
-            if declared[k]['method']:
-                continue
-            env.eq("C03,C02", "H-jac d%s/d%s after linearising at another point%s" % (k[0], k[1], tag),
+        for k in ana_keys:
+            env.eq("C01,C02,C03", "H-jac d%s/d%s after linearising at another point%s" % (k[0], k[1], tag),
                    jacA_first[k], jacC.dense(k))
-            env.eq("C03,C02", "H-jac d%s/d%s when linearised twice at the same point%s" % (k[0], k[1], tag),
+            env.eq("C01,C02,C03", "H-jac d%s/d%s when linearised twice at the same point%s" % (k[0], k[1], tag),
                    jacA.dense(k), jacC.dense(k))
+    # ---- history: the previous point differs from X in exactly one input (anything remembered under a key that
+    # leaves that input out is stale at X)
+    free = [k for k in hB.in_names if not (const and k in const)]
+    if len(free) > 1:
+        for kin in free:
+            hK = env.comp("live1." + kin, factory, setup_model)
+            if pre:
+                pre(env, hK)
+            insK = dict(ins)
+            insK[kin] = insP[kin]
+
+            def run_one(hK=hK, insK=insK):
+                store = hK.out_store()
+                hK.compute(insK, outs=store)
+                j = hK.partials(insK) if ana else None
+                o = hK.compute(ins, outs=store)
+                if ana:
+                    j = hK.partials(ins, prev=j)
+                return o, j
+
+            for path, (outsK, jacK) in env.explore(run_one):
+                outsC, jacC = _fresh_on_path()
+                tag = _tag(path)
+                for n in hK.out_names:
+                    env.eq("C03", "H-out %s after visiting a point that differs only in %s%s" % (n, kin, tag), outsK[n], outsC[n])
+                for k in ana_keys:
+                    env.eq("C01,C02,C03", "H-jac d%s/d%s after linearising at a point that differs only in %s%s" % (k[0], k[1], kin, tag),
+                           jacK.dense(k), jacC.dense(k))
     return hB
+
+
+def isolation_contract(env, factory, sibling, const=None, setup_model=None, pre=None):
+    """C20 / C03: an instance gives the outputs and the Jacobian of a fresh instance although an independent instance of
+    the same class, built for another configuration (same surface names, other mesh size), was set up and evaluated
+    between its own set-up and its evaluation: nothing is shared between instances"""
+    if sibling is None:
+        return None
+    hF = env.comp("iso.fresh", factory, setup_model)
+    if pre:
+        pre(env, hF)
+    ins = hF.inputs(const=const)
+    declared = _pairs(hF)
+    ana_keys = [k for k in declared if not declared[k]['method']]
+
+    def run():
+        o = hF.compute(ins)
+        j = hF.partials(ins) if ana_keys else None
+        hA = env.comp("iso.A", factory, setup_model)           # set up first ...
+        if pre:
+            pre(env, hA)
+        hS = env.comp("iso.other", sibling, setup_model)       # ... then the independent instance, set up and evaluated
+        if pre:
+            pre(env, hS)
+        insS = hS.inputs(tag="Q.", const=const)
+        hS.compute(insS)
+        if ana_keys:
+            hS.partials(insS)
+        try:
+            oA = hA.compute(ins)
+            jA = hA.partials(ins) if ana_keys else None
+        except S.OutsideFragment:
+            raise
+        except Exception as e:                                  # e.g. arrays of the other instance's size
+            return o, j, None, None, "%s: %s" % (type(e).__name__, e)
+        return o, j, oA, jA, None
+
+    for path, (o, j, oA, jA, err) in env.explore(run):
+        tag = ""
+        if env.sym and path:
+            tag = " @path(" + ";".join("%s=%s" % (_short(c), "T" if b else "F") for c, b in path) + ")"
+        env.holds("C20,C03", "I-iso evaluation succeeds after an independent instance was set up and evaluated%s" % tag,
+                  err is None, "raised %s" % err)
+        if err is not None:
+            continue
+        for n in hF.out_names:
+            env.eq("C20,C03", "I-iso %s unaffected by an independent instance%s" % (n, tag), oA[n], o[n])
+        for k in ana_keys:
+            env.eq("C20,C03,C01,C02", "I-iso d%s/d%s unaffected by an independent instance%s" % (k[0], k[1], tag),
+                   jA.dense(k), j.dense(k))
+        # the instances are re-created for the next path
+        for key in ("iso.A", "iso.other"):
+            env.comps.pop(key, None)
+    return hF
 
 
 def _short(c):
@@ -196,7 +290,7 @@ def implicit_contract(env, factory, setup_model=None, pre=None, requires=None):
         env.eq("C03", "H-out residual %s after visiting another point" % n, resA[n], res[n])
     for k in declared:
         if not declared[k]['method']:
-            env.eq("C03", "H-jac dR(%s)/d%s after linearising at another point" % k, j.dense(k), jac.dense(k))
+            env.eq("C01,C02,C03", "H-jac dR(%s)/d%s after linearising at another point" % k, j.dense(k), jac.dense(k))
     # solve contracts (under the component's precondition on its inputs, if any)
     if requires is not None:
         ins = requires(env, h, ins)
